@@ -188,13 +188,16 @@ func main() {
 		"for each shape and EVERY k in 1..%d (thorough: 1..1500 for the 12 basic shapes, 1..500 for the other fixed, 1..300 for PRNG shapes) the compiled hook calls Interp.Interrupt at its k-th call (one interpreter serves 16 consecutive k, then a fresh one); observed = number of later hook calls, panic class; "+
 		"part 2: %d asynchronous deliveries from another goroutine a PRNG delay (0..3ms) after the evaluation signalled that it started running, into 6 call-free tight loops (time bound 5s); "+
 		"after every case the Run record is compared with an idle interpreter's; after k<=16, k multiple of 14 or 15, k=71, k=K and after every async case a 22-evaluation battery is compared with an uninterrupted interpreter holding the same definitions; "+
+		"part 3: every shape x k in 1..16 (thorough 1..64) + {28,29,30,42,45,56,70,71,85,100} under OptDebugger only, OptCtrlCEnterDebugger only (both must behave as the defaults: interrupt panic, same later count, debugger never called) and both options with a counting debugger installed (the debugger must be entered and its panic request must stop the evaluation); "+
 		"a case is non-trivial when the interrupt was delivered while interpreted code was running (always); distinct by SHA-256 of (shape source, k)", nRandom, K, nAsync))
 	wd := vh.NewWatchdog(rep, 180*time.Second) // generous: the machine may be heavily loaded; a real hang is still reported
 	cw := vh.NewCases(a, "From Coq Require Import List Arith ZArith.\nFrom Verif Require Import C13.Model.\nImport ListNotations.", "case", "mismatches", perShard)
 
 	idx := 0
 	maxLater := 0
-	for si, sh := range shapes(rng, nRandom) {
+	allShapes := shapes(rng, nRandom)
+	defLater := map[string]int{}
+	for si, sh := range allShapes {
 		wantBattery := mkProbe(sh).RunBattery()
 		coqProg := sh.Prog.CoqProg()
 		src := strings.Join(sh.Decls, " ; ") + " ;; " + sh.Form
@@ -229,6 +232,7 @@ func main() {
 			pr.Arm(k, "interrupt")
 			_, pk := pr.Eval(sh.Form)
 			later, laterD := pr.Later, pr.LaterD
+			defLater[fmt.Sprintf("%s|%d", sh.Name, k)] = later
 			// ---- direct oracle
 			if pk != "interrupt" {
 				fail("evaluation did not end with panic(SigInterrupt)", pk, "interrupt")
@@ -344,5 +348,8 @@ func main() {
 		rep.Dist("async:" + t.form)
 	}
 	rep.Extra["async_max_stop_latency_us"] = maxStop.Microseconds()
+
+	// ---- part 3: the deterministic matrix under the other combinations of OptDebugger / OptCtrlCEnterDebugger (options.go)
+	optionMatrix(a, rep, wd, allShapes, defLater)
 	rep.Write()
 }
